@@ -246,10 +246,14 @@ def evaluate_predicates_action(
 
         substs: Dict[Variable | DerivationTree, DerivationTree] = eval_result.result
         assert isinstance(substs, dict)
-        assert all(
+        if not all(
             isinstance(key, Variable) and key.n_type == Variable.NUMERIC_NTYPE
             for key in substs
-        )
+        ):
+            # The predicate proposes to extend an (open) tree, e.g., `count` on a
+            # tree with too few occurrences: It is not decided yet.
+            return False
+
         return SMTFormula(
             z3_and(
                 [
